@@ -20,6 +20,8 @@ TRANSLATORS = [
     ('translator.gen_consts', 'GenConsts.v'),
     ('translator.gen_api', 'GenApi.v'),
     ('translator.gen_memo', 'GenMemo.v'),
+    ('translator.gen_schema', 'GenSchema.v'),
+    ('translator.gen_index', 'GenIndex.v'),
 ]
 
 FORBIDDEN = re.compile(r'\b(Admitted|admit|Axiom|Axioms|Parameter|Parameters|Conjecture|Conjectures|Abort All)\b'
